@@ -221,7 +221,7 @@ def cases(tier, cfg, seed):
                 if e.kind == 'log': n = 5
                 c = Expr(T, n, e, '=', boolean=True); c.max_paths = 1200; add(c)
         if isf:
-            fns = MATH1 if tier == 'thorough' else ['sin', 'exp', 'log', 'tanh', 'floor', 'cbrt']
+            fns = MATH1 if tier == 'thorough' else ['sin', 'exp', 'log', 'tanh', 'floor', 'cbrt', 'round', 'ceil', 'trunc']
             for f in fns:
                 add(Expr(T, 9, fn(f, A_), '='))
             add(Expr(T, 9, bn('+', fn('sin', A_), fn('cos', B_)), '='))
